@@ -1,8 +1,10 @@
 package checks
 
 import (
+	"context"
 	"fmt"
 	"math/rand/v2"
+	"sync"
 	"testing"
 	"time"
 
@@ -25,7 +27,104 @@ func c08Run(t *testing.T, s *sim.Scn) *sim.Outcome {
 	return o
 }
 
+// c08LoopBody (cfg loops=1): the real aggregation loop (lazy or normal mode), the real reaper-less mempool
+// notifications and the real header and data submission loops run together as goroutines under the fake
+// clock, with a pending limit. Phase 1: the DA layer refuses every submission for a seeded time (long enough
+// for the limit to be reached and, in lazy mode, for the idle timer to fire while production is throttled).
+// Phase 2: the DA layer accepts. On an idle chain production must resume: within phase 2 the height must
+// grow by at least one block per idle interval (lazy) / block interval (normal), less a settling allowance.
+func c08LoopBody(t *testing.T, s *sim.Scn, o *sim.Outcome) {
+	start := time.Now()
+	limit := uint64(max64(1, s.Cfg["limit"]))
+	bt := time.Duration(max64(100, s.Cfg["bt"])) * time.Millisecond
+	lazy := s.Cfg["lazy"] == 1
+	idle := time.Duration(max64(2, s.Cfg["idlex"])) * bt
+	dat := time.Duration(max64(200, s.Cfg["dat"])) * time.Millisecond
+	w := sim.NewWorld(t, "c08l", 1)
+	defer w.Close()
+	n := w.AddNode(sim.NodeCfg{Name: "seq", Aggregator: true, MaxPending: limit, MempoolTTL: 1, BlockTime: bt, DABlockTime: dat, LazyMode: lazy, LazyInterval: idle})
+	if err := n.StartNode(); err != nil {
+		o.Fail("C08/cannot-start", "", -1, err.Error(), "starts")
+		return
+	}
+	w.DA.AutoAdvance = true
+	ctx, cancel := context.WithCancel(context.Background())
+	errCh := make(chan error, 4)
+	var wg sync.WaitGroup
+	run := func(f func()) {
+		wg.Add(1)
+		go func() {
+			defer wg.Done()
+			f()
+		}()
+	}
+	run(func() { n.M.AggregationLoop(ctx, errCh) })
+	run(func() { n.M.HeaderSubmissionLoop(ctx) })
+	run(func() { n.M.DataSubmissionLoop(ctx) })
+	stop := func() {
+		cancel()
+		wg.Wait()
+	}
+	// phase 1: outage
+	w.DA.Outage = true
+	outage := time.Duration(s.Cfg["outage"]) * time.Millisecond
+	txEvery := s.Cfg["txevery"]
+	for el, k := time.Duration(0), int64(0); el < outage; el, k = el+bt, k+1 {
+		if txEvery > 0 && k%txEvery == 0 {
+			n.Exec.InjectTx([]byte(fmt.Sprintf("k%d=v", k)))
+			n.Reap()
+		}
+		time.Sleep(bt)
+	}
+	hOut := n.Height()
+	o.Count("loops:blocks-before-recovery", int(hOut))
+	// phase 2: the DA layer accepts again; the chain is idle
+	w.DA.Outage = false
+	settle := 35*dat + 2*idle // the submission loops finish their retry round (30 attempts) and flush the backlog
+	time.Sleep(settle)
+	h1 := n.Height()
+	// the sustainable rate: one block per block/idle interval, throttled to `limit` blocks per DA block time
+	// (the submission loops flush once per DA block time)
+	per := idle
+	if !lazy {
+		per = bt
+	}
+	unit := per
+	if thr := dat / time.Duration(limit); thr > unit {
+		unit = thr
+	}
+	window := 10 * unit
+	time.Sleep(window)
+	h2 := n.Height()
+	select {
+	case err := <-errCh:
+		stop()
+		o.Fail("C08/production-error", "", -1, fmt.Sprintf("aggregation loop reported: %v", err), "no error")
+		return
+	default:
+	}
+	stop()
+	want := uint64(5)
+	if h2-h1 < want {
+		mode := "normal"
+		if lazy {
+			mode = "lazy"
+		}
+		o.Fail("C08/production-stopped-with-accepting-da", "C08/production-stopped-with-accepting-da/real-loops/"+mode, -1,
+			fmt.Sprintf("%s mode, limit %d, block interval %v, idle interval %v: after a DA outage of %v (height %d at its end) and %v with an accepting DA layer, the idle chain grew from %d to %d in a further %v (pending headers %d, pending data %d); at least %d blocks are due (10 sustainable block periods of %v)", mode, limit, bt, idle, outage, hOut, settle, h1, h2, window, n.M.VerifNumPendingHeaders(), n.M.VerifNumPendingData(), want, unit),
+			"with a DA layer that accepts submissions, block production never stops permanently - in particular not on an idle chain")
+		return
+	}
+	o.Count("loops:runs", 1)
+	o.SimTime = time.Since(start)
+	o.NonTrivial = hOut >= 1
+}
+
 func c08Body(t *testing.T, s *sim.Scn, o *sim.Outcome) {
+	if s.Cfg["loops"] == 1 {
+		c08LoopBody(t, s, o)
+		return
+	}
 	start := time.Now()
 	ih := uint64(max64(1, s.Cfg["ih"]))
 	limit := uint64(max64(1, s.Cfg["limit"]))
@@ -146,7 +245,15 @@ func c08Body(t *testing.T, s *sim.Scn, o *sim.Outcome) {
 	o.NonTrivial = o.Counters["produced"] >= 3 && (o.Counters["declined"] > 0 || o.Counters["da-outage-entries"] > 0)
 }
 
+func c08LoopGen(r *rand.Rand) *sim.Scn {
+	return &sim.Scn{Cfg: map[string]int64{"loops": 1, "limit": 1 + r.Int64N(6), "lazy": []int64{1, 1, 0}[r.IntN(3)], "bt": []int64{100, 250, 1000}[r.IntN(3)],
+		"idlex": 2 + r.Int64N(6), "dat": []int64{200, 1000, 3000}[r.IntN(3)], "outage": []int64{0, 2000, 15000, 60000, 200000}[r.IntN(5)], "txevery": []int64{0, 0, 1, 5}[r.IntN(4)]}}
+}
+
 func c08Gen(r *rand.Rand, tier string) *sim.Scn {
+	if r.IntN(12) == 0 {
+		return c08LoopGen(r)
+	}
 	s := &sim.Scn{Cfg: map[string]int64{"ih": 1, "limit": 1 + r.Int64N(8)}}
 	if r.IntN(4) == 0 {
 		s.Cfg["ih"] = 2 + r.Int64N(49)
